@@ -107,7 +107,14 @@ func RunWorker(id, tier string, shard, nshards int, out string) {
 				continue
 			}
 			var r SeqResult
-			sc.Seq(&r)
+			func() {
+				defer func() {
+					if p := recover(); p != nil && r.Violation == "" {
+						r.Violation = fmt.Sprintf("PANIC in the library during sequential scenario %s after %d cases: %v", sc.Name, r.Cases, p)
+					}
+				}()
+				sc.Seq(&r)
+			}()
 			res.Results = append(res.Results, ScenResult{Name: sc.Name, Execs: r.Cases, States: r.Distinct, Steps: r.Cases, SeqCases: r.Cases,
 				Violation: r.Violation, SeqCase: r.Case, Sample: r.Sample, Outcomes: map[string]int{}})
 			continue
